@@ -333,6 +333,10 @@ func newAPIWorld(k *kernel.K) *apiWorld {
 	rh.SetRequestVerifier(aw.m)
 	rh.SetResponseVerifier(aw.m)
 	mux.Handle("martian.proxy/verify/reset", rh)
+	// the handlers are registered a second time under the API server's own host (ServeMux ignores ports)
+	mux.Handle("10.0.0.9/configure", aw.m)
+	mux.Handle("10.0.0.9/verify", vh)
+	mux.Handle("10.0.0.9/verify/reset", rh)
 	apiL := n.Listen("10.0.0.9:8181")
 	aw.srv = &http.Server{Handler: mux}
 	go aw.srv.Serve(apiL)
@@ -352,12 +356,22 @@ func newAPIWorld(k *kernel.K) *apiWorld {
 		recReq(exchangeID(req.URL.Path))
 		return nil
 	}))
-	topg.AddRequestModifier(aw.m)
+	recReqEnd, recResEnd := rec("request_end"), rec("response_end")
+	// aw.m itself, wrapped only to learn when the phase has left the user configuration
+	topg.AddRequestModifier(martian.RequestModifierFunc(func(req *http.Request) error {
+		err := aw.m.ModifyRequest(req)
+		recReqEnd(exchangeID(req.URL.Path))
+		return err
+	}))
 	topg.AddResponseModifier(martian.ResponseModifierFunc(func(res *http.Response) error {
 		recRes(exchangeID(res.Request.URL.Path))
 		return nil
 	}))
-	topg.AddResponseModifier(aw.m)
+	topg.AddResponseModifier(martian.ResponseModifierFunc(func(res *http.Response) error {
+		err := aw.m.ModifyResponse(res)
+		recResEnd(exchangeID(res.Request.URL.Path))
+		return err
+	}))
 	aw.proxy.SetRequestModifier(topg)
 	aw.proxy.SetResponseModifier(topg)
 	return aw
@@ -449,6 +463,12 @@ func runC12(k *kernel.K) {
 	}
 	traffic := NewClient(k, aw.l, "traffic", "10.1.0.2")
 	admin := NewClient(k, aw.l, "admin", "10.1.0.3")
+	// seam R8: goroutines can be parked right before a mutex acquisition in the configuration
+	// holder and the groups, e.g. an exchange between entering the holder and reading it
+	k.AddSource(k.GateSource)
+	ly := k.LockYield()
+	martianhttp.VerifYieldHook, fifo.VerifYieldHook = ly, ly
+	defer func() { martianhttp.VerifYieldHook, fifo.VerifYieldHook = nil, nil }()
 
 	// Script: configurations (valid and invalid) and exchanges.
 	nextProbe := 0
@@ -522,8 +542,10 @@ func runC12(k *kernel.K) {
 	k.StateFn = func() string {
 		return fmt.Sprintf("%s|%s|%s|%s", n.Fingerprint(), traffic.State(), admin.State(), origin.State())
 	}
-	k.RunUntil(func() bool { return traffic.Done() && admin.Done() })
+	k.RunUntil(func() bool { return traffic.Done() && admin.Done() && len(k.Parked()) == 0 })
 	k.Drain()
+	k.ReleaseAll()
+	k.Settle()
 	if k.Inconclusive != "" {
 		aw.cleanup()
 		return
@@ -564,13 +586,19 @@ func runC12(k *kernel.K) {
 				continue
 			}
 			// configurations that may be in force when this phase reached the user configuration
+			// (a goroutine can be parked between entering the configuration holder and reading it,
+			// seam R8: the phase spans [step, end])
+			end, okEnd := aw.phaseStep(e.id, phase+"_end")
+			if !okEnd {
+				end = 1 << 30
+			}
 			var allowed []*c12Conf
 			var definite *c12Conf
 			for _, c := range accepted {
 				done := admin.RespStep[c.idx]
 				if done < step {
 					definite = c
-				} else if c.item.SentStep <= step {
+				} else if c.item.SentStep <= end {
 					allowed = append(allowed, c)
 				}
 			}
@@ -584,7 +612,17 @@ func runC12(k *kernel.K) {
 				seen = tfin[i]
 			}
 			if seen == nil {
-				k.Fail("C12.trace_"+phase, nil, "exchange #%d: no %s observed at the far end", e.id, phase)
+				dbg := ""
+				for _, g := range k.Census() {
+					if g.Has("martian") || g.Has("net/http") {
+						fr := g.Frames
+						if len(fr) > 9 {
+							fr = fr[:9]
+						}
+						dbg += fmt.Sprintf(" || g%d [%s] %s", g.ID, g.State, strings.Join(fr, " < "))
+					}
+				}
+				k.Fail("C12.trace_"+phase, nil, "exchange #%d: no %s observed at the far end; traffic client state %s; goroutines:%s", e.id, phase, traffic.State(), dbg)
 				continue
 			}
 			got, gotErrs = traceOf(seen), warningErrors(seen)
